@@ -965,3 +965,158 @@ def adj_prim(ctx, flavours):
             if n < need:
                 out.append(Obl('ADJ-PRIM', M.path, '-', '%s primitives for both lists' % k, False, 'found %d' % n))
     return out
+
+
+# ---------------------------------------------------------------------------------------------------------------------
+# OBS-Q: the boolean observers are *exactly* what their name says, decided by evaluating their (tiny) bodies over the atoms
+# EMPTY(list) and FOUND(list, key):  is_root == EMPTY(IN), is_leaf == EMPTY(OUT), is_orphan == EMPTY(IN) & EMPTY(OUT),
+# is_connected(k) == FOUND(OUT, k) (directed) / FOUND(OUT+IN, k) (undirected).  Any other ingredient (another comparison, a
+# special case) makes the body unevaluable and the obligation fails closed.
+class _Unknown(Exception):
+    pass
+
+
+def _obs_eval(ctx, q, assign, depth=0):
+    """truth value of crate bool fn q(self[, key]) under `assign`: {('EMPTY', roles): bool, ('FOUND', roles): bool}"""
+    F = ctx.F
+    b = F.bodies.get(q)
+    if b is None or depth > 4 or F.types[b['locals'][0]].get('s') != 'bool':
+        raise _Unknown('cannot evaluate ' + q)
+    M = model(ctx, F.flavour(b))
+    pv, cfg = F.prov(b), F.cfg(b)
+
+    def roles_of(callq):
+        fp = M.reads(callq) if callq in M.methods else footprint(F, M, F.bodies[callq])
+        return frozenset(M.role(f) for f in fp)
+
+    def is_len(callq, d=0):
+        """crate fn that returns the length of one adjacency list of its receiver (len_outbound, out_degree, ..)"""
+        if callq in M.methods:
+            ops = {op for _, op, _ in M.methods[callq]['ops']}
+            return ops == {'len'}
+        cb = F.bodies.get(callq)
+        if cb is None or d > 2 or F.types[cb['locals'][0]].get('s') != 'usize':
+            return False
+        rt_ = deep_unwrap(F.prov(cb).of_local(0))
+        return isinstance(rt_, tuple) and bool(rt_) and rt_[0] == 'call' and rt_[1] in F.bodies and is_len(rt_[1], d + 1)
+
+    def atom(kind, callq):
+        key = (kind, roles_of(callq))
+        if key not in assign:
+            raise _Unknown('atom %s%s not in the table' % (kind, sorted(key[1])))
+        return assign[key]
+
+    def assign_get(key):
+        if key not in assign:
+            raise _Unknown('atom %s%s not in the table' % (key[0], sorted(key[1])))
+        return assign[key]
+
+    def num(t):
+        """a number that is a sum of adjacency-list lengths of self: list of role sets, or None"""
+        t = deep_unwrap(t)
+        if isinstance(t, tuple) and t:
+            if t[0] == 'f' and t[2] == '0' and isinstance(t[1], tuple) and t[1] and t[1][0] == 'binop':
+                t = t[1]
+            if t[0] == 'binop' and t[1].startswith('Add'):
+                a_, c_ = num(t[2][0]), num(t[2][1])
+                return None if a_ is None or c_ is None else a_ + c_
+            if t[0] == 'call' and t[1] in F.bodies and is_len(t[1]) and term_mentions(t, lambda z: z == P1_):
+                return [roles_of(t[1])]
+        return None
+
+    def ev(t):
+        t = strip_payload(t)
+        if t in (('const', 'true'), ('const', 'const true')):
+            return True
+        if t in (('const', 'false'), ('const', 'const false')):
+            return False
+        if isinstance(t, tuple) and t:
+            if t[0] == 'unop' and t[1] == 'Not':
+                return not ev(t[2])
+            if t[0] == 'binop' and t[1] in ('Eq', 'Ne'):
+                a, c = strip_payload(t[2][0]), strip_payload(t[2][1])
+                if a in (('const', '0_usize'), ('const', '0')):
+                    a, c = c, a
+                if c in (('const', '0_usize'), ('const', '0')):
+                    ns = num(a)
+                    if ns is not None:
+                        v = all(assign_get(('EMPTY', r)) for r in ns)
+                        return v if t[1] == 'Eq' else not v
+            if t[0] == 'call':
+                last = t[1].split('::')[-1]
+                if last in ('is_some', 'is_none') and t[1].startswith('std::option::Option::') and t[2]:
+                    src = strip_payload(t[2][0])
+                    if isinstance(src, tuple) and src and src[0] == 'call' and src[1] in F.bodies and src[1].split('::')[-1].startswith('find') and \
+                            [strip_payload(x) for x in src[2]] == [P1_, P2_]:
+                        v = atom('FOUND', src[1])
+                        return v if last == 'is_some' else not v
+                if t[1] in F.bodies and F.types[F.bodies[t[1]]['locals'][0]].get('s') == 'bool' and [strip_payload(x) for x in t[2]] in ([P1_], [P1_, P2_]):
+                    return _obs_eval(ctx, t[1], assign, depth + 1)
+        raise _Unknown('uses %s' % pretty(t)[:70])
+    # walk the CFG
+    bi, ret, steps = 0, None, 0
+    while steps < 200:
+        steps += 1
+        bb = b['blocks'][bi]
+        for s_ in bb['stmts']:
+            if s_['k'] == 'assign' and s_['dst'] == {'l': 0, 'p': []}:
+                rv = s_['rv']
+                if rv['k'] == 'use':
+                    ret = ev(pv.of_operand(rv['ops'][0]))
+                elif rv['k'] in ('binop', 'unop'):
+                    ret = ev((rv['k'], rv['op'], tuple(pv.of_operand(o) for o in rv['ops'])) if rv['k'] == 'binop' else ('unop', rv['op'], pv.of_operand(rv['ops'][0])))
+                else:
+                    raise _Unknown('result computed by ' + rv['k'])
+        t = bb['term']
+        if t['k'] == 'return':
+            if ret is None:
+                raise _Unknown('no result')
+            return ret
+        if t['k'] == 'call':
+            if t['dst'] == {'l': 0, 'p': []}:
+                ret = ev(pv.of_call(t, bi, 0))
+            bi = t['target']
+        elif t['k'] in ('goto', 'drop', 'assert'):
+            bi = t['target']
+        elif t['k'] == 'switch':
+            v = ev(pv.of_operand(t['op']))
+            tg = [x for val, x in t['targets'] if val == (1 if v else 0)]
+            bi = tg[0] if tg else t['otherwise']
+        else:
+            raise _Unknown('terminator ' + t['k'])
+        if bi < 0:
+            raise _Unknown('diverges')
+    raise _Unknown('does not terminate')
+
+
+def obs_q(ctx, flavours):
+    import itertools
+    F = ctx.F
+    out = []
+    for fl in flavours:
+        directed = fl in DIRECTED
+        BOTH = frozenset(('OUT', 'IN'))
+        spec = {
+            'is_orphan': ('EMPTY(IN) & EMPTY(OUT)', lambda a: a[('EMPTY', frozenset(('IN',)))] and a[('EMPTY', frozenset(('OUT',)))]),
+            'is_connected': ('FOUND(OUT, key)' if directed else 'FOUND(OUT+IN, key)', lambda a: a[('FOUND', frozenset(('OUT',)) if directed else BOTH)]),
+        }
+        if directed:
+            spec['is_root'] = ('EMPTY(IN)', lambda a: a[('EMPTY', frozenset(('IN',)))])
+            spec['is_leaf'] = ('EMPTY(OUT)', lambda a: a[('EMPTY', frozenset(('OUT',)))])
+        atoms = [('EMPTY', frozenset(('IN',))), ('EMPTY', frozenset(('OUT',))), ('FOUND', frozenset(('OUT',))), ('FOUND', frozenset(('IN',))), ('FOUND', BOTH)]
+        for name, (text, want) in sorted(spec.items()):
+            b = _node_fn(F, fl, name)
+            if b is None:
+                out.append(_missing('OBS-Q', fl, name))
+                continue
+            why = None
+            try:
+                for vals in itertools.product((False, True), repeat=len(atoms)):
+                    a = dict(zip(atoms, vals))
+                    if _obs_eval(ctx, b['q'], a) != want(a):
+                        why = 'differs from %s when %s' % (text, ', '.join('%s%s=%s' % (k[0], sorted(k[1]), v) for k, v in a.items() if k[0] == ('FOUND' if name == 'is_connected' else 'EMPTY') and len(k[1]) == (1 if directed or name != 'is_connected' else 2)))
+                        break
+            except _Unknown as e:
+                why = 'is not a function of the list states alone: %s' % e
+            out.append(Obl('OBS-Q', b['q'], b['span'], '%s == %s' % (name, text), why is None, why or 'truth table agrees'))
+    return out
